@@ -412,6 +412,18 @@ def receive_anchor(model: Model):
                     if g is not None and g.cls is None and not isinstance(g.node, ast.Lambda) and builds_reader(g, depth + 1):
                         return True
         return False
+    def reaches_reader(f, depth=0) -> bool:
+        """... or through methods of the session it calls on self (the decode loop moved into a private method)"""
+        if builds_reader(f):
+            return True
+        if depth >= 2 or not f.cls:
+            return False
+        for c in walk_no_nested(f.node):
+            if isinstance(c, ast.Call) and isinstance(c.func, ast.Attribute) and isinstance(c.func.value, ast.Name) and c.func.value.id == "self":
+                g = model.find_method(f.cls, c.func.attr)
+                if g is not None and g is not f and not isinstance(g.node, ast.Lambda) and reaches_reader(g, depth + 1):
+                    return True
+        return False
     for _hop in range(2):
         if builds_reader(fi):
             break
@@ -430,7 +442,7 @@ def receive_anchor(model: Model):
         if nxt is None or isinstance(nxt.node, ast.Lambda):
             break
         fi = nxt
-    if not builds_reader(fi):
+    if not reaches_reader(fi):
         raise AnalysisError("LDAPSession.receive does not set up the reader itself (it delegates its whole body to another method): the rules anchored on receive do not apply")
     return fi
 
